@@ -281,7 +281,8 @@ def _twin_mapping(m, rng, universe):
             img = img[1:] + img[:1]
     elif mode == 1:
         base = rng.choice((100, 1000, -50, 2 ** 40))
-        img = [base + i * rng.choice((1, 1, 3, 8)) for i in range(len(atoms))]
+        stride = rng.choice((1, 1, 3, 8))
+        img = [base + i * stride for i in range(len(atoms))]
         rng.shuffle(img)
     elif mode == 2:
         pool = list(range(-3, len(atoms) + 9))
@@ -366,6 +367,7 @@ def probe_twin(w, op):
         w.coherent(s, {"C09"}, "probe_twin", what="after-query")
         return
     mp = _twin_mapping(m, rng, w.universe)
+    assert len(set(mp.values())) == len(mp)
     tm = model.relabel(m, mp)
     if route == "fresh":
         try:
@@ -463,10 +465,10 @@ def compare_pair(w, g1, m1, g2, m2, tag, props_false="C02", props_true="C01"):
         if bool(val) != exp:
             if exp is False:
                 w.report({props_false}, f"pair:{tag}|{name}|equal-but-not-isomorphic|{cls}",
-                         json.dumps({"a": m1.view(), "b": m2.view()}, default=repr)[:2000])
+                         repr({"a": m1.view(), "b": m2.view()})[:2500])
             else:
                 w.report({props_true}, f"pair:{tag}|{name}|isomorphic-but-unequal|{cls}",
-                         json.dumps({"a": m1.view(), "b": m2.view()}, default=repr)[:2000])
+                         repr({"a": m1.view(), "b": m2.view()})[:2500])
             return False
     if m1.kind != m2.kind or not m1.atoms or not m2.atoms:
         return True
@@ -487,7 +489,7 @@ def compare_pair(w, g1, m1, g2, m2, tag, props_false="C02", props_true="C01"):
         w.stats["pair:signature-differs"] += 1
         if h1 == h2:
             w.report({"C16"}, f"pair:{tag}|signature-differs-hash-equal|{cls}",
-                     json.dumps({"a": m1.view(), "b": m2.view()}, default=repr)[:2000])
+                     repr({"a": m1.view(), "b": m2.view()})[:2500])
             return False
     return True
 
@@ -677,7 +679,7 @@ def probe_enant(w, op):
             return
         if bool(val) != exp:
             w.report({"C06"}, f"enantiomer|{name}|{'chiral-but-equal' if not exp else 'achiral-but-unequal'}|{cls}",
-                     json.dumps(m.view(), default=repr)[:1500])
+                     repr(m.view())[:1500])
             return
     # twice
     st, ee = _call(w, lambda: e.enantiomer())
@@ -763,13 +765,14 @@ def check_from_graphs(w, sl, inputs, op):
             rv, problems = R.guarded(R.snapshot, side, ())
         except Exception as e:  # noqa: BLE001
             return fail(f"{which}()-unreadable:{type(e).__name__}")
-        exp = RefGraph(src.kind)
+        side_kind = "SMG" if sl.model.kind == "SCRG" else "MG"
+        exp = RefGraph(side_kind)
         exp.atoms = {a: {"atom_type": v["atom_type"]} for a, v in src.atoms.items()}
         exp.bonds = {b: {} for b in src.bonds}
         full = all(d[2] is not None for *_x, d in src.all_descs())
         ev = exp.view()
         fields = ["class", "atoms", "bonds", "neighbors", "components"]
-        if src.is_stereo:
+        if side_kind == "SMG":
             ev["astereo"] = {a: geom.canon(d) for a, d in src.astereo.items()}
             ev["bstereo"] = {tuple(sorted(b)): geom.canon(d) for b, d in src.bstereo.items()}
             if full and (TSm is None or all(d[2] is not None for *_x, d in TSm.all_descs())) \
@@ -877,13 +880,13 @@ def _enum_check_prefix(w, gs, final):
     bad = [x for x in got if x not in oracle]
     if bad:
         w.report({"C05"}, f"enum|invalid-mapping|{tag}|{cls}",
-                 json.dumps({"mapping": bad[0], "g1": d["m1"].view(), "g2": d["m2"].view()}, default=repr)[:2500])
+                 repr({"mapping": bad[0], "g1": d["m1"].view(), "g2": d["m2"].view()})[:2500])
         return False
     if final and set(got) != oracle:
         missing = sorted(oracle - set(got))
         w.report({"C05"}, f"enum|missing-mapping|{tag}|{cls}",
-                 json.dumps({"missing": missing[0], "n_missing": len(missing), "n_oracle": len(oracle),
-                             "g1": d["m1"].view(), "g2": d["m2"].view()}, default=repr)[:2500])
+                 repr({"missing": missing[0], "n_missing": len(missing), "n_oracle": len(oracle),
+                       "g1": d["m1"].view(), "g2": d["m2"].view()})[:2500])
         return False
     if final:
         w.stats["enum_exhausted_checked"] += 1
@@ -1030,7 +1033,7 @@ def symnum(w, op):
     if st != "ok":
         w.report({"C05"}, f"symnum|{st}{':' + type(val).__name__ if st == 'exc' else ''}|{cls}", repr(val))
     elif val != exp:
-        w.report({"C05"}, f"symnum|wrong-count|{cls}", json.dumps({"real": val, "oracle": exp, "g": m.view()}, default=repr)[:1500])
+        w.report({"C05"}, f"symnum|wrong-count|{cls}", repr({"real": val, "oracle": exp, "g": m.view()})[:1500])
     else:
         w.stats["symnum_checked"] += 1
     w.coherent(op["s"], {"C09"}, "symnum", what="after-query")
@@ -1125,7 +1128,7 @@ def probe_flip(w, op):
         w.report({"C16"}, f"flip|hash-{st1}/{st2}|{cls}", "")
     elif h1 == h2:
         w.report({"C16"}, f"flip|{getattr(m, where)[key][0]}|stereoisomers-hash-equal|{cls}",
-                 json.dumps(m.view(), default=repr)[:1500])
+                 repr(m.view())[:1500])
     w.coherent(op["s"], {"C09"}, "probe_flip", what="after-query")
 
 
@@ -1195,7 +1198,7 @@ def _isomers_done(w, gs):
     cls = d["cls"]
     if len(got) != 2:
         w.report({"C16"}, f"isomers|{d['unit']}|yielded-{len(got)}-instead-of-2|{cls}",
-                 json.dumps(d["src_model"].view(), default=repr)[:1500])
+                 repr(d["src_model"].view())[:1500])
         return
     if got[0][1] is None or got[0][1] == got[1][1]:
         w.report({"C16"}, f"isomers|{d['unit']}|hashes-equal|{cls}", "")
